@@ -68,6 +68,7 @@ type Contract struct {
 	Applies   []string // "lemmaName with x = e, y = e": instances of other lemmas of the same package, assumed (the lemma itself is an obligation of its own)
 	Opaque    []string // spec functions whose definitions are hidden (declared, not defined) in this function's VCs
 	used      bool
+	mentionedIDs map[string]bool
 }
 
 type LetDef struct {
